@@ -14,6 +14,7 @@ This private submodule is *not* intended for importation by downstream callers.
 '''
 
 # ....................{ IMPORTS                            }....................
+from beartype.claw._package._clawpkgmake import make_conf_hookable
 from beartype.claw._package.clawpkgtrie import (
     remove_beartype_pathhook_unless_packages_trie)
 from beartype.typing import (
@@ -86,6 +87,13 @@ def beartyping(
         claw_lock,
         claw_state,
     )
+
+    # Replace this beartype configuration with the configuration that the
+    # beartype_all() function called below actually registers. The comparison
+    # performed on leaving this context would otherwise compare the registered
+    # (hookable) configuration against the passed (unhookable) configuration,
+    # which compare unequal, and thus *NEVER* restore the prior configuration.
+    conf = make_conf_hookable(conf)
 
     # Prior global beartype configuration registered by a prior call to the
     # beartype_all() function if any *OR* "None" otherwise.
